@@ -23,6 +23,9 @@ THEOREMS = [P + t for t in (
     "graph_at_nested_dedicated_counterexample",
     # several elements: an interleaved history falls apart into the histories of the single elements
     "elements_do_not_share", "untouched_element_unchanged", "history_last_op_decides_any_element",
+    # several properties of one element: a write to one leaves the others (fresh-sliver defaults probed into the tables)
+    "frame_ok", "step_leaves_other_property", "other_properties_leave_property", "history_last_op_on_property_decides",
+    "frame_hyps_of_tables", "other_properties_leave_property_repo", "frame_stitch_counterexample",
     # the codec hypothesis discharged for the value model that carries C03's and C12's codec models
     "rich_rowLaw", "fieldLaw_rich", "typed_wf", "rich_rows_ok", "fieldLaw_discharged", "props_roundtrip_typed_partial",
     "dict_roundtrip_typed_partial", "graph_roundtrip_typed_partial", "graph_roundtrip_component_typed_partial")]
@@ -55,6 +58,10 @@ TRUSTED_BASE = [
     "history falls apart into per-element histories); that the python readers keep no decoded object between calls - no table shared by "
     "elements carrying an equal text, no object handed out twice - is an oracle fact: every object a getter / converter hands out is changed "
     "in place, deeply, before the next read (element histories, check_alias over equal values on three elements, the third call of check_inputs)",
+    "fresh slivers: what `<SliverClass>()` holds before any setter ran is probed per class on every run (gen/slivermap.py fresh_defaults -> "
+    "Generated freshDefaults; frame_ok decides over it, the driver's set routes start from it); that a fresh sliver of an element's write is "
+    "not influenced by earlier objects of the class (no class-level default shared between objects) is an oracle / correspondence fact "
+    "(histories over several properties on pooled topologies, hundreds of fresh slivers per process)",
     "the size limit of mf_data / user_data / layout_data is read from the class under check (MAX_SIZE); texts exactly at and one under it in "
     "seven spellings are pool values (every run, every path); the text layer itself stays trusted as above",
 ]
@@ -77,7 +84,11 @@ RULE = ("sliver trees (depth <= 4, <= 12 elements) with a random subset of every
         "every settable name as a *history* v1 -> v2 -> unset -> v3 -> v1 -> unset -> v2 -> unset -> unset over three values (falsy ones "
         "included: False, '', (), empty objects, JSON 0 / \"\" / [] / null) in which every set route (set_property, set_properties, attribute) "
         "and unset route (unset_property, set_property(None), attribute = None) is taken and both readers follow every step; several keywords "
-        "in one set_properties; constructor keywords; every history runs over three handles of the element (the object the constructing call "
+        "in one set_properties; histories over SEVERAL properties of one element ('+' cases: each of 2-4 properties set in turn - every member "
+        "of type / layer / mirror_direction / stitch_node once as the value that has to survive, the rare ones included - then the first "
+        "overwritten, the second unset, the last overwritten, the first overwritten again, the last unset, routes and two handles rotating; "
+        "after every step EVERY property of the case is read through both handles, and the element's deep sliver after the first phase and "
+        "at the end: a write or unset of one property leaves every other reading what it read before); constructor keywords; every history runs over three handles of the element (the object the constructing call "
         "returned, one from a lookup view - topo.nodes[..], node.components[..], interface_list, ... - and one from the constructor on the "
         "existing id), writes rotating over them and every handle reading after every step; deterministic chain trees through every nesting "
         "position (node/component/service/DedicatedPort/SubInterface and its suffixes, with siblings) and every tree with children: written "
@@ -1047,7 +1058,11 @@ def correspondence(ctx, res):
                     res.count("build-failed:" + err_kind(e))
     # 4. every route to a property (set_property / set_properties / attribute, get_property / attribute,
     #    unset_property / set_property(None) / attribute = None) on real elements at every position
+    thin = ctx.sub_rng("corr-frames")
     for case in load_corpus("elem") + gen_elem_cases(ctx, ctx.sub_rng("corr-elem"), ctx.scale(1, 4), full=ctx.thorough):
+        if "elemb" in case and not ctx.thorough:
+            # quick tier: every several-property history that starts from an enum member, a third of the others (the oracle runs all)
+            case = {"elemb": [tr for tr in case["elemb"] if tr[1] != "+" or tr[2][0][0] in FRAME_ENUMS or thin.random() < 0.34]}
         out = run_elem_case(case)
         for st_, o in zip(out["streams"], out["obs"]):
             cls, gprops, ops, replies = st_[:4]
@@ -1347,6 +1362,7 @@ def gen_elem_cases(ctx, rng, reps, full=True):
                 kw["image_ref"], kw["image_type"] = ["s", rng.choice(STRS)], ["s", rng.choice(["qcow2", "raw", "a b"])]
             if all(usable_elem(d) for d in kw.values()):
                 lst.append([pos, "*", kw, {}])
+        lst.extend(gen_frame_cases(ctx, rng, pos, kind, reps))
         per_pos[pos] = lst
     cases = []
     n = max(len(v) for v in per_pos.values())
@@ -1354,6 +1370,216 @@ def gen_elem_cases(ctx, rng, reps, full=True):
         batch = [per_pos[pos][i] for pos in POS_KIND if i < len(per_pos[pos])]
         cases.append({"elemb": batch})
     return cases
+
+
+FRAME_SKIP = {"name"} | set(PAIR_KEYS)      # the handle's cached name / the fate-sharing image pair have histories of their own
+FRAME_ENUMS = ("type", "layer", "mirror_direction", "stitch_node")
+
+
+def gen_frame_cases(ctx, rng, pos, kind, reps):
+    """-> [[position, "+", [[key, v1, v2], ...], opts]]: histories over SEVERAL properties of one element - each is set
+    (every member of every enum once as the value that has to survive, the rare ones included; the fresh sliver's own
+    defaults too), then the others are set / overwritten / unset through every route, and after every step every property
+    of the case is read: a write to one property leaves every other one as it read before (`frame`)."""
+    keys = [k for k in settable(kind) if k not in FRAME_SKIP]
+    if len(keys) < 2:
+        return []
+    base = pos in BASE_POS
+    out = []
+
+    def others(k, n):
+        rest = [x for x in keys if x != k and x != "stitch_node"]
+        return rng.sample(rest, min(len(rest), n))
+
+    def entry(k, d1=None):
+        d1 = d1 or gen_value(rng, kind, k, 7)
+        return [k, d1, gen_value(rng, kind, k, 7)]
+
+    for rep in range(reps):
+        for k in keys:
+            if k == "stitch_node" and rep:
+                continue
+            if k in FRAME_ENUMS and rep == 0:
+                firsts = value_pool(kind, k)
+                if not (base or ctx.thorough):
+                    firsts = rng.sample(firsts, min(len(firsts), 2))
+            else:
+                if not ctx.thorough and pos not in FULL_POS and rng.random() < 0.6:
+                    continue
+                firsts = list(FALSY.get(k, []))[:1] if rep == 0 and rng.random() < 0.5 else []
+                firsts = firsts or [gen_value(rng, kind, k, 7)]
+            for d1 in firsts:
+                ent = [entry(k, d1)] + [entry(x) for x in others(k, rng.randrange(1, 4))]
+                if all(usable_elem(e[1]) and usable_elem(e[2]) for e in ent):
+                    out.append([pos, "+", ent, {"rot": rng.randrange(0, 9)}])
+    return out
+
+
+def run_frame(topo, els, tr):
+    """[position, "+", [[key, v1, v2], ...], opts]: set every key (v1) in turn, overwrite the first (v2), unset the second,
+    set the last again (v2), overwrite the first again through the next route; after every step EVERY key of the case is read
+    (get_property through two handles; the deep sliver of the element at the end of the first phase and at the end)."""
+    r = R.get()
+    pos, ent = tr[0], tr[2]
+    opts = tr[3] if len(tr) > 3 else {}
+    kind = POS_KIND[pos]
+    el = els[pos]
+    rot = int(opts.get("rot", 0))
+    _, props = topo.graph_model.get_node_properties(node_id=el.node_id)
+    gprops = {g: x for g, x in props.items() if g in model_gprops() and isinstance(x, str)}
+    extra = other_handles(topo, els, pos, want=2)[:1]      # (the list is cached per position: ask for what the single-key histories ask)
+    handles = [el] + [h for _, h in extra]
+    hows = ["returned"] + [how for how, _ in extra]
+    names0 = [wire(h.name) for h in handles]
+    keys = [e[0] for e in ent]
+    vals = {}
+    for k, d1, d2 in ent:
+        lst = []
+        for d in (d1, d2):
+            v = mk_value(d)
+            fresh = r["SLIVER"][kind]()
+            fresh.set_property(k, v)
+            lst.append((v, fresh.get_property(k)))
+        vals[k] = lst
+    ops, replies, steps = [], [], []
+
+    def hx(hi):
+        return [hi] if hi else []
+
+    def read_all():
+        out = {}
+        for k in keys:
+            gs = []
+            for hi, h in enumerate(handles):
+                g = elem_get(h, k)
+                ops.append(["get", k] + hx(hi))
+                replies.append(wire(g[1]) if g[0] == "ok" else g)
+                gs.append(g)
+            out[k] = gs
+        return out
+
+    def read_sliver():
+        out = {}
+        try:
+            sl = el.get_sliver()
+        except Exception as e:
+            return {k: ["err", err_kind(e)] for k in keys}
+        for k in keys:
+            try:
+                out[k] = ["ok", sl.get_property(k)]
+            except Exception as e:
+                out[k] = ["err", err_kind(e)]
+        return out
+
+    start = read_all()
+    last = [start]
+    n = [0]
+
+    def step(op, k, vi=0):
+        w = (n[0] + rot) % len(handles)
+        h = handles[w]
+        has_get, has_set = attr_info(h, k) if isinstance(k, str) else (False, False)
+        if op == "setmulti":       # one set_properties call with several keywords (k: the list of them)
+            route = "set_properties-multi"
+            res = call(lambda: h.set_properties(**{x: vals[x][vi][0] for x in k}))
+            ops.append(["setprops", [[x, wire(vals[x][vi][1])] for x in k]] + hx(w))
+        elif op == "set":
+            sroutes = [s for s in SET_ROUTES if s != "attr" or (has_set and not isinstance(vals[k][vi][0], r["JSONData"]))]
+            route = sroutes[(n[0] + rot) % len(sroutes)]
+            v, stored = vals[k][vi]
+            if route == "set_property":
+                res = call(lambda: h.set_property(k, v))
+                ops.append(["set", k, wire(stored)] + hx(w))
+            elif route == "set_properties":
+                res = call(lambda: h.set_properties(**{k: v}))
+                ops.append(["setprops", [[k, wire(stored)]]] + hx(w))
+            else:
+                res = call(lambda: setattr(h, k, v))
+                ops.append(["attrset", k, wire(stored)] + hx(w))
+        else:
+            uroutes = [u for u in UNSET_ROUTES if u != "attr_none" or has_set]
+            route = uroutes[(n[0] + rot) % len(uroutes)]
+            if route == "unset_property":
+                res = call(lambda: h.unset_property(k))
+                ops.append(["unset", k] + hx(w))
+            elif route == "set_property_none":
+                res = call(lambda: h.set_property(k, None))
+                ops.append(["setnone", k] + hx(w))
+            else:
+                res = call(lambda: setattr(h, k, None))
+                ops.append(["attrset", k, None] + hx(w))
+        n[0] += 1
+        replies.append(res)
+        g = read_all()
+        steps.append({"op": op, "route": route, "key": k, "res": res, "prev": last[0], "got": g, "writer": w})
+        last[0] = g
+
+    for k in keys:
+        step("set", k, 0)
+    steps[-1]["sliver"] = read_sliver()
+    step("set", keys[0], 1)
+    step("unset", keys[1])
+    step("set", keys[-1], 1)
+    step("set", keys[0], 0)
+    if len(keys) > 2:
+        step("setmulti", keys[1:], 1)
+    step("unset", keys[-1])
+    steps[-1]["sliver"] = read_sliver()
+    # pooled topologies: put the element back as it was found (not part of the history)
+    for k in keys:
+        b = start[k][0]
+        try:
+            now = elem_get(el, k)
+            if b[0] == "ok" and now[0] == "ok" and canon(ocanon(now[1])) != canon(ocanon(b[1])):
+                if b[1] is None:
+                    el.unset_property(k)
+                else:
+                    el.set_property(k, b[1])
+        except Exception:
+            pass
+    stream = (type(el).__name__, gprops, ops, replies, names0[0] if len(handles) == 1 else {"names": names0})
+    obs = {"pos": pos, "kind": kind, "cls": type(el).__name__, "key": "+", "value": ent, "opts": opts, "steps": steps, "hows": hows,
+           "start": start}
+    return stream, obs
+
+
+def check_frame(o, c, res):
+    """a write (or unset, or rejected operation) on one property leaves every other property of the element reading what
+    it read before, through every handle and in the element's deep sliver"""
+    cls = ELEM_CLASS[o["kind"]]
+    found = {}
+    for st in o["steps"]:
+        kt = st["key"]
+        for k, gs in st["got"].items():
+            if k == kt or (isinstance(kt, list) and k in kt):
+                continue
+            for hi, g in enumerate(gs):
+                p = st["prev"][k][hi]
+                if canon(rd_canon(g)) == canon(rd_canon(p)):
+                    continue
+                if g[0] != "ok":
+                    what = "get-raises:" + g[1]
+                elif p[0] != "ok":
+                    continue
+                elif g[1] is None:
+                    what = "lost"
+                elif canon(ocanon(g[1])) == canon(ocanon(default_of(o["kind"], k))):
+                    what = "reset-to-default"
+                else:
+                    what = "changed"
+                found.setdefault((k, what, st["op"]), (kt, st["route"], rd_canon(p), rd_canon(g)))
+                break
+        sl = st.get("sliver")
+        if sl:
+            for k, g in sl.items():
+                g0 = st["got"][k][0]
+                if canon(rd_canon(g)) != canon(rd_canon(g0)):
+                    found.setdefault((k, "sliver-get-differs", st["op"]), (st["key"], st["route"], rd_canon(g0), rd_canon(g)))
+    for (k, what, op), (kt, route, exp, obs) in sorted(found.items()):
+        tag = k if k == "stitch_node" else "%s:%s" % (cls, k)       # (the base sliver's default: one finding for all classes)
+        res.violation("C02:frame:%s:%s:by=%s" % (tag, what, "set" if op == "setmulti" else op),
+                      "%s of %s on a %s (position %s) through %s: %s read %s before and reads %s after" % (
+                          op, kt, o["cls"], o["pos"], route, k, canon(exp), canon(obs)), c, expected=exp, observed=obs)
 
 
 MODEL_GPROPS = None
@@ -1507,6 +1733,8 @@ def run_elem_triple(topo, els, tr):
     r = R.get()
     if tr[1] == "*":
         return run_multi(topo, els, tr)
+    if tr[1] == "+":
+        return run_frame(topo, els, tr)
     pos, k, d = tr[0], tr[1], tr[2]
     opts = tr[3] if len(tr) > 3 else {}
     kind = POS_KIND[pos]
@@ -1895,6 +2123,9 @@ def check_elem(case, res):
         c = {"elem": [[o["pos"], k, o["value"], o["opts"]]]}
         if k == "*":
             check_multi(o, c, res)
+            continue
+        if k == "+":
+            check_frame(o, c, res)
             continue
         tag = "%s:%s" % (cls, k)
         ctx_s = (":ctx=" + o["opts"]["ctx"]) if o["opts"].get("ctx") else ""
@@ -2309,6 +2540,26 @@ def check_side_routes(res):
             # written through another handle of the element (where there is one), read through the one that read before
             oh = [h for _, h in other_handles(topo, els, pos, want=2)]
             wh = oh[0] if oh else el
+            # frame: the element holds a non-default member of every enum-typed property (the last of the pool) and details;
+            # no side route may change any property other than its own
+            kind = POS_KIND[pos]
+            fkeys = [k for k in settable(kind) if k not in FRAME_SKIP and k != "stitch_node"]
+            try:        # (one call: a later write must not be what resets an earlier one)
+                el.set_properties(**{k: mk_value(value_pool(kind, k)[-1] if k in FRAME_ENUMS else ["s", "side-frame"])
+                                     for k in fkeys if k in FRAME_ENUMS or k == "details"})
+            except Exception:
+                pass
+
+            def side_frame(op, own, snap):
+                now = {k: canon(rd_canon(elem_get(el, k))) for k in fkeys}
+                for k in fkeys:
+                    if k != own and now[k] != snap[k]:
+                        res.violation("C02:frame:%s:%s:changed:by=%s" % (cls, k, op),
+                                      "%s on a %s (position %s): %s read %s before and reads %s after" % (
+                                          op, type(el).__name__, pos, k, snap[k], now[k]), c, expected=snap[k], observed=now[k])
+                return now
+
+            snap = side_frame("none", None, {k: canon(rd_canon(elem_get(el, k))) for k in fkeys})
             for what, cl, kws in (("labels", "Labels", [{"vlan": "5"}, {"local_name": "q", "vlan": "6"}]),
                                   ("capacities", "Capacities", [{"core": 3}, {"ram": 0, "disk": 7}])):
                 for kw in kws:
@@ -2320,6 +2571,7 @@ def check_side_routes(res):
                         res.violation("C02:set_get:%s:%s:update-raises:%s" % (cls, what, err_kind(e)),
                                       "update_%s(%s) on a %s (position %s) raises" % (what, kw, type(el).__name__, pos), c)
                         continue
+                    snap = side_frame("update_" + what, what, snap)
                     exp = dict(before.__dict__) if before is not None else dict(r[cl]().__dict__)
                     exp.update(kw)
                     got = dict(after.__dict__) if after is not None else None
@@ -2331,6 +2583,7 @@ def check_side_routes(res):
             new = "renamed-" + pos
             try:
                 el.rename(new)
+                snap = side_frame("rename", "name", snap)
                 if el.name != new or el.get_property("name") != new or any(h.get_property("name") != new for h in oh):
                     res.violation("C02:set_get:%s:name:changed:routes=rename" % cls, "rename on a %s (position %s) is not read back" % (
                         type(el).__name__, pos), c, expected=new, observed=[el.name, el.get_property("name")] + [h.get_property("name") for h in oh])
